@@ -1006,6 +1006,16 @@ theorem no_go_panic_generated (spec : Spec) (tf : TypeFn) (impl : ImplFn) (args 
   rw [generated_call_eq spec tf impl args argsNil hs]
   exact no_go_panic spec tf impl args hv why
 
+/-- The wrappers are not in the translated fragment; their source text is regenerated on every check
+and pinned here: `Proxy()` is `f.Call(args)`, `Unpredictable` replaces `Impl` in a shallow copy of the
+spec, `unpredictableImpl` answers `cty.UnknownVal(retType)` — what `Fn.proxy`, `Func.unpredictable` and
+`unpredictableImpl` of the model say (any edit of these three bodies makes this theorem fail). -/
+theorem wrappers_source_pinned :
+    Generated.FnCall.proxyBody = "{ return func(args ...cty.Value) (cty.Value, error) { return f.Call(args) } }" ∧
+    Generated.FnCall.unpredictableBody =
+      "{ newSpec := *f.spec newSpec.Impl = unpredictableImpl return New(&newSpec) }" ∧
+    Generated.FnCall.unpredictableImplBody = "{ return cty.UnknownVal(retType), nil }" := by decide
+
 /-- clause 5 about the translated source, at the three translated entry points: with acceptable
 arguments, a panic of the `Type` callback comes back as its `PanicError` from `Call`, from
 `ReturnTypeForValues` and from `ReturnType` as written (the seeded change that moved the `recover`
